@@ -7,6 +7,18 @@ from ..wirelib import wire_views, buffer_accesses, expand, const_of, ret_origin,
 from ..bitfield import (getter_bits, setter_stores, getter_footprint, setter_modified, Undecided, atoms, Eval)
 from .c04 import const_int
 
+# C06 enumerates its protocols; RPL and IPsec (features proto-rpl / proto-ipsec, thorough cfg B) are not among them
+OUT_OF_SCOPE = ('src/wire/rpl.rs', 'src/wire/ipsec_ah.rs', 'src/wire/ipsec_esp.rs')
+
+
+def in_scope(F, adt_or_body):
+    f = adt_or_body if isinstance(adt_or_body, str) else (adt_or_body.file or '')
+    if not f.startswith('src/'):
+        a = F.adts.get(adt_or_body) if isinstance(adt_or_body, str) else None
+        f = (a or {}).get('file', '') if a else f
+    return f not in OUT_OF_SCOPE
+
+
 IPHC = 'wire::sixlowpan::iphc::Packet'
 IPHCR = 'wire::sixlowpan::iphc::Repr'
 NHCU = 'wire::sixlowpan::nhc::UdpNhcPacket'
@@ -49,6 +61,8 @@ def r06_2(ctx):
     views = wire_views(F)
     n = 0
     for adt in sorted(views):
+        if not in_scope(F, adt):
+            continue
         short = adt[len('wire::'):]
         for name, g, s in _pairs(F, adt):
             cg, cs = _cover(F, g, adt), _cover(F, s, adt)
@@ -70,6 +84,8 @@ def r06_3(ctx):
     decided = 0
     und = collections.Counter()
     for adt in sorted(views):
+        if not in_scope(F, adt):
+            continue
         short = adt[len('wire::'):]
         for name, g, s in _pairs(F, adt):
             try:
@@ -147,7 +163,7 @@ def r06_5(ctx):
 
     def is_view_setter(nm):
         return view_of(nm) is not None and nm.rsplit('::', 1)[-1].startswith('set_')
-    reprs = [a for a in F.adts if a.startswith('wire::') and F.method(a, 'parse') and F.method(a, 'emit')]
+    reprs = [a for a in F.adts if a.startswith('wire::') and in_scope(F, a) and F.method(a, 'parse') and F.method(a, 'emit')]
     ctx.need(len(reprs) >= 20, "wire Repr types with parse and emit")
     tot = 0
     for R in sorted(reprs):
@@ -249,7 +265,7 @@ def r06_6(ctx):
     F = ctx.F
     n = 0
     for k, b in sorted(F.bodies.items()):
-        if not ((b.file or '').startswith('src/wire/') or (b.file or '') == 'src/iface/interface/sixlowpan.rs'):
+        if not ((b.file or '').startswith('src/wire/') or (b.file or '') == 'src/iface/interface/sixlowpan.rs') or not in_scope(F, b):
             continue
         defs = _cursor_defs(b)
         for L, ds in defs.items():
@@ -579,6 +595,8 @@ def r06_3b(ctx):
     for k, b in sorted(F.bodies.items()):
         if not (b.file or '').startswith('src/wire/') or k.rsplit('::', 1)[-1] not in ('emit', 'emit_header'):
             continue
+        if not in_scope(F, b):
+            continue
         if not any(b.callee_name(x[1]) in maps for x in b.calls()):
             continue
         try:
@@ -624,7 +642,7 @@ def r06_6b(ctx):
     F = ctx.F
     n = 0
     for k, b in sorted(F.bodies.items()):
-        if not (b.file or '').startswith('src/wire/'):
+        if not (b.file or '').startswith('src/wire/') or not in_scope(F, b):
             continue
         defs = _cursor_defs(b)
         for L, ds in defs.items():
